@@ -758,8 +758,8 @@ def all_cases(blocks):
 # measured CPU seconds per case (one core, machine under load: conservative), by total dimension D
 _COST = {
     "State": {4: .01, 6: .015, 9: .03, 8: .025, 12: .045, 18: .11, 27: .55, 16: .07},
-    "Povm": {4: .025, 6: .03, 9: .045, 8: .06, 12: .1, 18: .22, 27: 1.0, 16: .12},
-    "Ensemble": {4: .03, 6: .07, 9: .17, 8: .3, 12: .35, 18: .6, 27: 1.6, 16: .5},
+    "Povm": {4: .025, 6: .03, 9: .045, 8: .06, 12: .1, 18: .22, 27: 1.2, 16: .12},
+    "Ensemble": {4: .03, 6: .07, 9: .17, 8: .3, 12: .35, 18: .7, 27: 3.5, 16: .5},
     "Gate": {4: .2, 6: .6, 9: 1.0, 8: .3},
     "MProcess": {4: .15, 6: 1.0, 9: 2.5, 8: 1.3},
     "GateMProcess": {4: .15, 6: .9, 9: 1.7, 8: .8},
@@ -792,7 +792,7 @@ def units(tier):
                 take = 9 if D == 27 else None
             else:
                 take = 18 if D == 8 else 9
-            add(fam, d, reps=1 if q else ((5 if D < 27 else 3) if ens else (10 if D < 27 else 5)), take=take if q else None)
+            add(fam, d, reps=1 if q else ((4 if D < 27 else 2) if ens else (8 if D < 27 else 4)), take=take if q else None)
         add(fam, (2, 2, 2, 2), reps=1 if q else (2 if ens else 4), take=(33 if ens else 88) if q else None)
     for fam in ("Gate", "MProcess", "GateMProcess"):
         for d in two:
@@ -811,7 +811,7 @@ def units(tier):
             add("Joint", d, reps=4 if q else 16, sub=sub, cost=1.3 * _COST[sub][prod(d)])
     for sub in ("Gate", "MProcess"):
         add("Joint", (2, 2, 2), reps=4 if q else 16, sub=sub, cost=.2 if sub == "Gate" else 1.0)
-    add("Embed", (3,), reps=60 if q else 700, q=1, cost=.5)
+    add("Embed", (3,), reps=60 if q else 500, q=1, cost=.5)
     add("Embed", (3, 3), reps=3 if q else 16, q=2, cost=8.0)
     return U
 
